@@ -239,6 +239,10 @@ func (tc *tcase) effectAt(in ssa.Instruction) (effect, bool, string) {
 						return effect{}, false, ""
 					}
 				}
+				if _, isShift := tc.shiftLoopStore(x); isShift {
+					// for i := pos; i < len(S)-1; i++ { S[i] = S[i+1] } – the written-out form of copy(S[pos:], S[pos+1:])
+					return effect{}, false, ""
+				}
 				if xk, ok := tc.searchOf(ia.Index); ok {
 					// binary insertion: S = append(S, zero); copy(S[pos+1:], S[pos:]); S[pos] = x with pos = search(S, x)
 					if strip(xk) == strip(x.Val) && tc.upShiftBefore(in, ia.Index) {
@@ -354,6 +358,20 @@ func (tc *tcase) assigned(v ssa.Value, in ssa.Instruction) (effect, bool, string
 								}
 							}
 						})
+						if xk == nil {
+							// the shift written as a loop
+							instrs(in.Parent(), func(j ssa.Instruction) {
+								st, ok := j.(*ssa.Store)
+								if !ok {
+									return
+								}
+								if k, isShift := tc.shiftLoopStore(st); isShift && mayFollow(st, in) {
+									if phi, _ := st.Addr.(*ssa.IndexAddr).Index.(*ssa.Phi); phi != nil && phi.Block().Dominates(in.Block()) {
+										xk = k
+									}
+								}
+							})
+						}
 						if xk != nil {
 							return effect{kind: effRemove, v: xk, in: in, vIsPos: isPosParam(xk)}, true, ""
 						}
@@ -1037,4 +1055,65 @@ func (tc *tcase) growsForInsertion(in ssa.Instruction) bool {
 		}
 	})
 	return found
+}
+
+// shiftLoopStore: st is the body of `for i := pos; i < len(S)-1; i++ { S[i] = S[i+1] }` with pos = SearchStrings(S, x):
+// returns x. The counter is a phi of pos and i+1, the loop is governed by i < len(S)-1, the stored value is S[i+1].
+func (tc *tcase) shiftLoopStore(st *ssa.Store) (ssa.Value, bool) {
+	ia, ok := st.Addr.(*ssa.IndexAddr)
+	if !ok || !tc.isS(ia.X) {
+		return nil, false
+	}
+	phi, ok := ia.Index.(*ssa.Phi)
+	if !ok || len(phi.Edges) != 2 {
+		return nil, false
+	}
+	plusOne := func(v ssa.Value) bool {
+		b, ok := v.(*ssa.BinOp)
+		if !ok || b.Op != token.ADD || b.X != ssa.Value(phi) {
+			return false
+		}
+		n, ok := constInt(b.Y)
+		return ok && n == 1
+	}
+	var xk ssa.Value
+	stepOK := false
+	for _, ed := range phi.Edges {
+		if plusOne(ed) {
+			stepOK = true
+		} else if k, ok := tc.searchOf(ed); ok {
+			xk = k
+		}
+	}
+	if !stepOK || xk == nil {
+		return nil, false
+	}
+	// the value: S[i+1]
+	ld, ok := st.Val.(*ssa.UnOp)
+	if !ok || ld.Op != token.MUL {
+		return nil, false
+	}
+	sa, ok := ld.X.(*ssa.IndexAddr)
+	if !ok || !tc.isS(sa.X) || !plusOne(sa.Index) {
+		return nil, false
+	}
+	// the guard: i < len(S)-1, on the true edge of which the store lies
+	governed := false
+	for _, c := range condsAt(st.Block()) {
+		b, ok := c.V.(*ssa.BinOp)
+		if !ok || !c.Val || b.Op != token.LSS || b.X != ssa.Value(phi) {
+			continue
+		}
+		if sub, ok := b.Y.(*ssa.BinOp); ok && sub.Op == token.SUB {
+			if n, ok := constInt(sub.Y); ok && n == 1 {
+				if lc, ok := sub.X.(*ssa.Call); ok && staticCalleeName(lc) == "builtin.len" && tc.isS(lc.Call.Args[0]) {
+					governed = true
+				}
+			}
+		}
+	}
+	if !governed {
+		return nil, false
+	}
+	return xk, true
 }
